@@ -31,7 +31,27 @@ class DirectFace(Face):
         if exc is not None:
             self.fail_next_send = None          # a transport error on this one send (buffer full, interface gone)
             raise exc
-        self._on_tx(bytes(data))
+        snap = bytes(data)
+        if not isinstance(data, bytes):
+            # a transport may queue what it was handed without copying it (asyncio's socket transports do when the peer
+            # is slow): the buffer has to keep its content once it was given away
+            self.recheck_tx()
+            held = getattr(self, 'tx_held', None)
+            if held is None:
+                held = self.tx_held = []
+            held.append((data, snap))
+            del held[:-8]
+        self._on_tx(snap)
+
+    def recheck_tx(self):
+        """buffers handed to send() earlier and possibly still queued in a transport: unchanged?"""
+        for obj, snap in getattr(self, 'tx_held', None) or ():
+            try:
+                same = bytes(obj) == snap
+            except (ValueError, TypeError):
+                same = True         # released
+            if not same and getattr(self, 'on_tx_mutated', None) is not None:
+                self.on_tx_mutated(snap, bytes(obj))
 
     async def run(self):
         await self._closed
